@@ -5,6 +5,7 @@ import (
 
 	"github.com/goghcrow/yae/conv"
 	"github.com/goghcrow/yae/fun"
+	"github.com/goghcrow/yae/parser/ast"
 	"github.com/goghcrow/yae/trans"
 	"github.com/goghcrow/yae/types"
 	"github.com/goghcrow/yae/val"
@@ -83,6 +84,34 @@ func CompileBytecodeRaw(h *Host, src string, tenv *types.Env) (code *vm.VerifCod
 	types.Check(parsed, tenv.Inherit(tfn))
 	accepted = true
 	code = vm.VerifCompile(parsed, vfn)
+	return
+}
+
+// CompileBytecodeAST: the same for a hand-built (core-form) tree and an empty environment — used
+// for literals too wide to push through the quadratic lexer.
+func CompileBytecodeAST(h *Host, tree ast.Expr) (code *vm.VerifCode, accepted, refused bool, msg string) {
+	defer func() {
+		if r := recover(); r != nil {
+			msg = fmt.Sprint(r)
+			if accepted && msg == "overflow" {
+				refused = true
+			}
+		}
+	}()
+	tfn, vfn := types.NewEnv(), val.NewEnv()
+	if h != nil {
+		for _, v := range h.Vals {
+			tfn.RegisterFun(v.Type)
+			vfn.RegisterFun(v)
+		}
+	}
+	for _, f := range fun.BuiltIn() {
+		tfn.RegisterFun(f.Type)
+		vfn.RegisterFun(f)
+	}
+	types.Check(tree, types.NewEnv().Inherit(tfn))
+	accepted = true
+	code = vm.VerifCompile(tree, vfn)
 	return
 }
 
